@@ -133,6 +133,22 @@ class TextGen:
             it = self.mk("named", rename=f"{nme}{self.n}r", fields=[Field("a", prim("i32"))])
             self.add(it, position="type-rename", cls="ident", text=nme)
 
+    # ---- C04: type names no TypeScript declaration can carry ----------------------------------
+    def impossible_type_names(self):
+        """`export type <name> = ..` has no quoted form: a name that is a reserved word of TypeScript, or is not an identifier at
+        all, cannot be declared. Such a type is either refused by the derive (a diagnostic) or whatever is written still parses."""
+        for cls, ident in (("reserved-word", "r#for"), ("reserved-word", "delete"), ("reserved-word", "void"), ("reserved-word", "r#enum"),
+                           ("strict-reserved-word", "r#let"), ("reserved-word", "function"), ("predefined-type", "string")):
+            it = self.mk("named", fields=[Field("a", prim("i32"))])
+            it.name = ident
+            self.add(it, position="type-name-impossible", cls=cls, text=ident)
+        for cls, ren in (("space", "with space"), ("dash", "kebab-name"), ("leading-digit", "1st"), ("empty", ""), ("reserved-word", "for"),
+                         ("dquote", 'a"b'), ("dot", "a.b"), ("reserved-word", "null")):
+            it = self.mk("named", rename=ren, fields=[Field("a", prim("i32"))])
+            self.add(it, position="type-name-impossible", cls=cls, text=ren)
+            it = self.mk("enum", rename=ren, variants=[Variant("A", "unit"), Variant("B", "unit")])
+            self.add(it, position="type-name-impossible", cls=cls, text=ren)
+
     # ---- C15: doc groups ---------------------------------------------------------------------
     def doc_groups(self, n_groups):
         r = self.r
